@@ -614,6 +614,10 @@ func filesetvbuf(t *rt.Thread, c *rt.GoCont) (rt.Cont, error) {
 			return nil, err
 		}
 	}
+	if size > 0 {
+		// The buffer is allocated with the size chosen by the program
+		t.RequireBytes(int(size))
+	}
 	bufErr := f.SetWriteBuffer(mode, int(size))
 	if bufErr != nil {
 		return nil, bufErr
